@@ -159,6 +159,9 @@ def _layers(v):
     v = strip(v)
     if head(v) == "dmerge":
         return list(v[1])
+    # dict(((k1, v1), (k2, v2))) : a literal sequence of pairs is a literal layer
+    if head(v) in ("tuple", "list") and v[1] and all(head(strip(x)) in ("tuple", "list") and len(strip(x)[1]) == 2 and is_const(strip(strip(x)[1][0])) for x in v[1]):
+        return [("lit", tuple((strip(strip(x)[1][0]), strip(x)[1][1]) for x in v[1]))]
     return [("ref", v)]
 
 
